@@ -58,6 +58,9 @@ func newConcWorld(n int) *concWorld {
 	}
 	w := &concWorld{sd: sd, resp: map[string]httpResp{}}
 	for i := 0; i < n; i++ {
+		if i > 0 { // sessions are created 1 s apart: two idle timers never fire at the same instant
+			time.Sleep(time.Second) // (the thread names of their callbacks would depend on the Go scheduler)
+		}
 		h := sd.do("POST", "/session", nil, "")
 		if h.Code != 201 || h.Cookie == nil {
 			w.err = fmt.Sprintf("setup: POST /session -> %d", h.Code)
@@ -150,7 +153,7 @@ func concPrograms() []concProgram {
 		mk("lock(s0)||DELETE(s0)||idle-timeout", 1, []time.Duration{concT}, map[string][]int{"A": {200, 401}, "B": {200, 409}},
 			conc.Thread{Name: "A", Run: func(c any) { c.(*concWorld).lockReq("A", 0, "y") }},
 			conc.Thread{Name: "B", Run: func(c any) { c.(*concWorld).deleteReq("B", 0) }}),
-		mk("lock(s0)||lock(s1)||idle-timeouts", 2, []time.Duration{concT}, map[string][]int{"A": {200, 401}, "B": {200, 401}},
+		mk("lock(s0)||lock(s1)||idle-timeouts", 2, []time.Duration{concT + time.Second}, map[string][]int{"A": {200, 401}, "B": {200, 401}},
 			conc.Thread{Name: "A", Run: func(c any) { c.(*concWorld).lockReq("A", 0, "y") }},
 			conc.Thread{Name: "B", Run: func(c any) { c.(*concWorld).lockReq("B", 1, "y") }}),
 		mk("lock(s0)||lock(s0)||DELETE(s0)", 1, nil, map[string][]int{"A": {200, 401}, "B": {200, 401}, "C": {200}},
@@ -169,9 +172,9 @@ func TestRestConc(t *testing.T) {
 			t.Fatalf("writing the result file: %v", err)
 		}
 	}()
-	res.Rule = "three programs on the instrumented gateway + real lock server (session timeout 10 s, every session holds one lock): (1) lock request || DELETE /session on one session, with a 10 s tick so the idle callback runs as a third thread; (2) lock requests on two sessions with the tick expiring both; (3) two lock requests || DELETE on one session. Every schedule with at most 2 preemptions (depth-first, capped per tier) plus PCT-style random schedules; each schedule = fresh bubble, fresh server. Monitors: every HTTP call returned, no deadlock, no panic, exactly one ConnEnd per session after a final 3T of silence, no hold left. distinct = distinct (program, schedule trace); non-trivial = at least one preemption, or the tick placed before the last thread finished"
-	// ~370 / ~215 / ~260 schedules per second: the quick caps keep the whole test under a minute
-	bound, capRuns, nRandom := 2, []int{8000, 3000, 2500}, 500
+	res.Rule = "three programs on the instrumented gateway + real lock server (session timeout 10 s, every session holds one lock): (1) lock request || DELETE /session on one session, with a 10 s tick so the idle callback runs as a third thread; (2) lock requests on two sessions created 1 s apart, with one 11 s tick during which first one (at 10 s) then the other (at 11 s) session expires unless re-armed; (3) two lock requests || DELETE on one session. Every schedule with at most 2 preemptions (depth-first, capped per tier) plus PCT-style random schedules; each schedule = fresh bubble, fresh server. Monitors: every HTTP call returned, no deadlock, no panic, exactly one ConnEnd per session after a final 3T of silence, no hold left. distinct = distinct (program, schedule trace); non-trivial = at least one preemption, or the tick placed before the last thread finished"
+	// 200-370 schedules per second depending on the program and the machine: the quick caps keep the whole test under a minute
+	bound, capRuns, nRandom := 2, []int{6000, 2000, 1500}, 300
 	if common.Thorough() {
 		capRuns, nRandom = []int{200000, 50000, 50000}, 3000
 	}
